@@ -1,6 +1,7 @@
 package main
 
 import (
+	"strings"
 	"encoding/json"
 	"fmt"
 	"os"
@@ -30,6 +31,12 @@ func runC01(opt *Options) int {
 	}
 	convs = append(convs, shapes...)
 	convs = append(convs, layerb.FamilyCustom(false)...)
+	// fallible custom functions below recursive types: the signatures of generated methods change while they are built
+	for i, c := range layerb.FamilyError(false) {
+		if strings.Contains(c.ID, "recp") || strings.Contains(c.ID, "rec_") || i%9 == 0 {
+			convs = append(convs, c)
+		}
+	}
 	lb := &lbRun{Opt: opt, Convs: convs, Check: func(pc *layerb.PathCtx) {}, Bounds: layerb.Bounds{MaxSlice: 0, MaxMap: 0, RecDepth: 0}}
 	res := lb.runNoExplore()
 	known := loadKnown()
@@ -84,9 +91,13 @@ func runC01(opt *Options) int {
 	// (b) kernel K3: namer
 	la := &laRun{
 		Opt:     opt,
-		Pkgs:    []string{"namer"},
-		Kernels: []layera.Kernel{{Name: "K3.namer", Pkg: "namer", Harness: "VerifHarness_C01_Namer", Unwind: 40, MaxPaths: 2000000}},
-		Funcs:   []string{"namer.New", "namer.(*Namer).Register", "namer.(*Namer).Name", "namer.(*Namer).Index", "namer.(*Namer).Map"},
+		Pkgs:    []string{"namer", "config"},
+		Kernels: []layera.Kernel{
+			{Name: "K3.namer", Pkg: "namer", Harness: "VerifHarness_C01_Namer", Unwind: 40, MaxPaths: 2000000},
+			// the package clause of an emitted file: the last output:package line alone decides path and name
+			{Name: "K8.outputpackage", Pkg: "config", Harness: "VerifHarness_C15_OutputPackage", Unwind: 64, Stub: []string{"github.com/jmattheis/goverter/method.Parse"}},
+		},
+		Funcs:   []string{"config.parseConverterLine (output:package arm)", "namer.New", "namer.(*Namer).Register", "namer.(*Namer).Name", "namer.(*Namer).Index", "namer.(*Namer).Map"},
 		Bounds:  "namer states built by <= 3 Register calls with arbitrary names of 1..3 bytes over {c,i,j,k,e,y,v,a,l,u,2,3} (contains every identifier the namer itself proposes up to 3 bytes), requested base name likewise; unwind 40 asserted",
 		Assume: []string{
 			"gate (not a solver verdict): every file emitted for the corpus (F-name, F-shape, F-custom) is type-checked with go/types together with its input package and compared with the declared API; a failure is reported as a C01 violation",
